@@ -37,11 +37,32 @@ COMBINE = {
 }
 
 
+class FinalBM25F(scoring.BM25F):
+    """a weighting with a final() hook that depends on the document: the score is multiplied by 1 + n/1000 of that document
+    (n read from the stored fields of the *global* document number on the top-level searcher)"""
+    use_final = True
+
+    def final(self, searcher, docnum, score):
+        n = searcher.stored_fields(docnum).get("n")
+        return score * (1.0 + (n or 0) / 1000.0)
+
+
+def _fn_weight(searcher, fieldname, text, matcher):
+    return matcher.weight() * 1.5 + 0.25
+
+
+FINAL_OF = {"Final(BM25F)": "BM25F"}
+
+
 def weightings():
     return [("BM25F", lambda: scoring.BM25F()), ("BM25F(t_B=0.2)", lambda: scoring.BM25F(B=0.9, K1=1.5, t_B=0.2)),
             ("TF_IDF", lambda: scoring.TF_IDF()), ("Frequency", lambda: scoring.Frequency()),
             # PL2/DFree: their values are not modelled (transcendental), but composition and layout independence are asserted
-            ("PL2", lambda: scoring.PL2()), ("DFree", lambda: scoring.DFree())]
+            ("PL2", lambda: scoring.PL2()), ("DFree", lambda: scoring.DFree()),
+            ("Multi(BM25F, g=Frequency)", lambda: scoring.MultiWeighting(scoring.BM25F(), g=scoring.Frequency())),
+            ("Reverse(TF_IDF)", lambda: scoring.ReverseWeighting(scoring.TF_IDF())),
+            ("Function(1.5w+.25)", lambda: scoring.FunctionWeighting(_fn_weight)),
+            ("Final(BM25F)", lambda: FinalBM25F())]
 
 
 def searchers():
@@ -84,6 +105,26 @@ def check(op, a, b, boost):
         except Exception as e:  # noqa
             return "%s [%s/%s] raised %s: %s" % (desc, lname, wn, type(e).__name__, e)
         per_layout[(lname, wn)] = sq
+        # the score of a hit does not depend on the collector: a limited search reports the same score for the documents it returns
+        for lim in (1, 2):
+            try:
+                rl = s.search(o[1](qa, lb[1]()), limit=lim)
+                for hit in rl:
+                    if hit["k"] not in sq or not close(hit.score, sq[hit["k"]]):
+                        return "%s [%s/%s] limit=%d reports %r for %s, the exhaustive search %r" % (desc, lname, wn, lim, hit.score, hit["k"], sq.get(hit["k"]))
+            except Exception as e:  # noqa
+                return "%s [%s/%s] limit=%d raised %s: %s" % (desc, lname, wn, lim, type(e).__name__, e)
+        if wn in FINAL_OF:
+            # final() is applied exactly once per hit, to the composed score, with the hit's own (global) document number
+            plain = per_layout[(lname, FINAL_OF[wn])]
+            nof = dict((d[0], d[2]) for d in C.CORPUS)
+            if set(plain) != set(sq):
+                return "%s [%s/%s] different hits with and without the final() hook" % (desc, lname, wn)
+            for k, v in sq.items():
+                want = plain[k] * (1.0 + (nof[k] or 0) / 1000.0)
+                if not close(v, want):
+                    return "%s [%s/%s] document %s (n=%r) scores %r, expected final(%r) = %r" % (desc, lname, wn, k, nof[k], v, plain[k], want)
+            continue
         comb = COMBINE.get(op)
         if comb is not None:
             for d in C.CORPUS:
